@@ -325,6 +325,20 @@ def rule_R6(ctx, f):
                                     return peel(caps[int(t[2])])
                                 return t
                             okc = cap(w[0].args[0]) == SELF_FIELD("vec") and cap(w[0].args[1]) == P2 and is_call(cl.term_local(0), ["local"]) and peel(cl.term_local(0)[2][0], transparent=[]) == w[0].result_term()
+                if not oi:
+                    # `match self.local.entry(hash) { Occupied(e) => e.into_mut(), Vacant(e) => e.insert(self.vec.with_label_values(vals).local()) }`
+                    vi = b.calls_to("VacantEntry::insert")
+                    w = b.calls_to("MetricVec::with_label_values")
+                    sw = [bi for bi in b.reachable_blocks() if (lambda si_: si_ and si_[0][0] == "discr" and peel(si_[0][1], transparent=[]) == e.result_term())(b.switch_info(bi))]
+                    if len(vi) == 1 and len(w) == 1 and len(sw) == 1:
+                        child = peel(vi[0].args[1], transparent=[])
+                        okc = peel(w[0].args[0]) == SELF_FIELD("vec") and peel(w[0].args[1]) == P2 and is_call(child, ["local"]) and peel(child[2][0], transparent=[]) == w[0].result_term() \
+                            and e.result_term() in list(subterms(vi[0].args[0]))
+                        # the shared lookup happens on the Vacant arm only (a hit must not create or replace anything)
+                        si_ = b.switch_info(sw[0])
+                        arms_ = [t for v, t in si_[1]] + ([si_[2]] if b.blocks[si_[2]]["term"]["k"] != "unreachable" else [])
+                        vac = [t for t in arms_ if vi[0].bb in b.reach(t) or t == vi[0].bb]
+                        okc = okc and len(vac) == 1 and all(w[0].bb not in b.reach(t) for t in arms_ if t not in vac)
                 ctx.ob(rid, ty + "::with_label_values|child", okc, "on a miss the local must wrap vec.with_label_values(vals).local() for the same vals", site=b.raw["span"]["at"])
         b = ctx.anchor(rid, ty + "::remove_label_values", f.body(path + "remove_label_values"))
         if b:
